@@ -115,7 +115,12 @@ def primary(case, result, terms):
         emit('y', jets.compose(levels, [x], jets.powi_deriv(n, x[0])))
     elif k0 in ('powf', 'powfc'):
         x = ins['x']
-        n = scal['n'] if k0 == 'powf' else ir.T('const', Fraction(parts[1]))
+        if k0 == 'powf':
+            n = scal['n']
+        else:
+            import struct
+            bits = struct.unpack('<Q', struct.pack('<d', float(parts[1])))[0]
+            n = ir.T('const', ir.literal_fraction(bits))
         assume.append(('gt', x[0], ZERO))
         emit('y', jets.compose(levels, [x], jets.func_deriv('powf', [x[0]], {jets._n: n})))
     elif k0 == 'log':
